@@ -808,14 +808,9 @@ func (c *compiler) evalCallExpression(node *ast.CallExpression) (interface{}, er
 		}
 
 		if !rv.IsValid() {
-			if rv.Kind() == reflect.Slice {
-				rv = rc.FieldByName(mname)
-				if rv.IsValid() {
-					return rv.Interface(), nil
-				}
-			}
-
-			return rc.Interface(), nil
+			// a pointer whose method set has no such method: the receiver
+			// itself is not the result of the call
+			return nil, fmt.Errorf("'%s' does not have a method named '%s' (%s.%s)", node.Callee.String(), mname, node.Callee.String(), mname)
 		}
 	} else {
 		f, err := c.evalExpression(node.Function)
